@@ -4,7 +4,7 @@
 cd /verif
 ids="$@"; [ -z "$ids" ] && ids=$(ls seeded)
 for id in $ids; do
-  prop=$(python3 -c "import json;print(json.load(open('seeded/$id/meta.json'))['property'])")
+  prop=$(python3 -c "import json;m=json.load(open('seeded/$id/meta.json'));print(m.get('check',m['property']))")
   if ! git -C /repo apply --check /verif/seeded/$id/patch.diff 2>/dev/null; then echo "$id $prop PATCH-DOES-NOT-APPLY"; continue; fi
   git -C /repo apply /verif/seeded/$id/patch.diff
   mkdir -p out/seeded
